@@ -96,6 +96,7 @@ def swarm_features(rng, force=None) -> Dict[str, bool]:
         "react": rng.random() < 0.3,
         "extra_init": rng.random() < 0.3,
         "multi_pair": rng.random() < 0.2,
+        "any_inputs": rng.random() < 0.25,
         "future_pers": False,     # carve-out 3 (persistent attributes with a future time): only when forced
     }
     if force:
@@ -129,6 +130,10 @@ def gen_core(seed: int, tier: str = "quick", force=None, transport_mix="mixed",
                 s["init_event"] = rng.choice([None, 0, 0, 1, 2, 3])
             else:
                 s["init_event"] = rng.choice([None, 0])
+        if feats.get("any_inputs") and rng.random() < 0.4:
+            # accepts inputs on attributes it never declared
+            s["any_inputs"] = True
+            s["meta_style"] = s["meta_style"] if (typ == "hybrid" and s["meta_style"] in (0, 1)) else 0
         sims.append(s)
     paths = group_paths({"groups": groups})
     conns: List[Dict[str, Any]] = []
@@ -155,6 +160,8 @@ def gen_core(seed: int, tier: str = "quick", force=None, transport_mix="mixed",
         for _ in range(npairs):
             ua = rng.choice(OUTS[sa["type"]])
             va = rng.choice(INS[sb["type"]])
+            if sb.get("any_inputs") and rng.random() < 0.5:
+                va = rng.choice(["zz_in", "yy_in"])
             if (a, se, b, de, va) in used or any(p[1] == va for p in pairs):
                 continue
             pairs.append([ua, va])
@@ -172,7 +179,12 @@ def gen_core(seed: int, tier: str = "quick", force=None, transport_mix="mixed",
              "shift": shift, "weak": weak}
         init = {}
         for ua, va in pairs:
-            nontrig = (va == "m_in")
+            if va in ("zz_in", "yy_in"):
+                # undeclared attribute of an any_inputs model: trigger for event-based models and for
+                # hybrid models that only list their non-trigger attributes, non-trigger otherwise
+                nontrig = not (sb["type"] == "event-based" or (sb["type"] == "hybrid" and sb["meta_style"] == 1))
+            else:
+                nontrig = (va == "m_in")
             pers = (ua == "p_out")
             if (shift or weak) and nontrig:
                 init[ua] = f"init{len(conns)}:{ua}"
@@ -213,6 +225,19 @@ def repair_cycles(sc, rng, max_rounds=20):
     cycles into time-shifted ones (with initial data where RM requires it)."""
     for _ in range(max_rounds):
         rm = RM(sc)
+        # connections that lack required initial data (e.g. after a repair below)
+        fixed_init = False
+        for c, verdict in zip(sc["conns"], rm.verdicts):
+            if verdict and "needs initial data" in verdict and not c.get("illegal_kind"):
+                init = dict(c.get("init") or {})
+                for pi, why in eval(verdict):
+                    if why == ["needs initial data"]:
+                        ua = c["pairs"][pi][0]
+                        init.setdefault(ua, f"initR:{ua}")
+                        fixed_init = True
+                c["init"] = init
+        if fixed_init:
+            continue
         cyc = rm.unresolved_cycles()
         if not cyc:
             return True
